@@ -599,8 +599,9 @@ def resolve_strategy_inline_recurse(path, base, decisions):
 
             elif k == 'id':
                 # A cell id must be a string, so the two ids cannot both be
-                # recorded here: the merged cell keeps the local one
-                cell[k] = lcell[k]
+                # recorded here: the merged cell keeps the local one (or the
+                # remote one if only that side has an id)
+                cell[k] = lcell[k] if k in lcell else rcell[k]
 
             elif k == 'execution_count':
                 cell[k] = None  # Clear
